@@ -179,8 +179,117 @@ Section Shape.
     destruct (nth_error prog t) eqn:P; [|apply nth_error_None in P; lia]. simpl in E.
     unfold all_done in D. rewrite forallb_forall in D. specialize (D _ (nth_error_In _ _ E)). discriminate.
   Qed.
+
+  (* ---- a syntactic condition under which no call answers Aborted / Unavailable by itself ---- *)
+  Definition lost_guard (r : outcome M) : bool :=
+    match r with
+    | OVal (inr k) => negb (k =? 10)
+    | ODel _ (Some k) => negb (k =? 14)
+    | _ => true
+    end.
+
+  (* validation and the caller's check never answer 10 (Set / Update) resp. 14 (Delete), and the call does not
+     generate its id (in this transition system a generating call has no candidates: Aborted) *)
+  Definition err_free (c : call M writer rmask) : Prop :=
+    match c with
+    | CSet _ o => w_validate (wo_writer o) <> Some 10 /\ (forall chk old, wo_check o = Some chk -> chk old <> Some 10)
+    | CUpdate id _ o =>
+        w_validate (wo_writer o) <> Some 10 /\ (forall chk old, wo_check o = Some chk -> chk old <> Some 10) /\
+        String.eqb (apply_id idfun id) "" && wo_gen_id o = false
+    | CDelete _ o => forall chk old, wo_check o = Some chk -> chk old <> Some 14
+    | _ => True
+    end.
+
+  Lemma change_fn_err (o : wopts M writer) msg old k :
+    change_fn m_eqb m_empty w_merge o msg old = inr k ->
+    k = 9 \/ exists chk, wo_check o = Some chk /\ chk old = Some k.
+  Proof.
+    unfold change_fn.
+    destruct (match wo_expected o with Some e => if om_eqb m_eqb old (Some e) then None else Some 9 | None => None end) as [c1|] eqn:E1.
+    - intros H. inversion H; subst. left.
+      destruct (wo_expected o); [|discriminate]. destruct (om_eqb m_eqb old (Some m)); inversion E1; reflexivity.
+    - destruct (wo_check o) as [chk|]; [|discriminate].
+      destruct (chk old) as [c2|] eqn:E2; [|discriminate]. intros H. inversion H; subst. right. eauto.
+  Qed.
+
+  Lemma neq10 k : k <> 10 -> negb (k =? 10) = true.
+  Proof. intros H. apply negb_true_iff. apply Z.eqb_neq. exact H. Qed.
+
+  Lemma trans_done_guard c p w r w' eff : err_free c -> trans c p w = Some (PDone r, w', eff) -> lost_guard r = true.
+  Proof.
+    unfold Lts.trans. destruct c, p; intros F H; try discriminate; simpl in F.
+    - destruct F as [F1 F2]. destruct (w_validate (wo_writer o)) as [k|] eqn:V; inversion H; subst. simpl.
+      apply neq10. congruence.
+    - destruct F as [F1 F2]. destruct (change_fn m_eqb m_empty w_merge o msg old) as [nv|k] eqn:C.
+      + destruct (om_eqb m_eqb old (v_val (w_v w))); [|inversion H; reflexivity].
+        destruct (update_time clock_at o (v_reads (w_v w))); discriminate.
+      + inversion H; subst. simpl. apply neq10. destruct (change_fn_err _ _ _ _ C) as [->|(chk & Hc & Hk)]; [lia|].
+        intros ->. exact (F2 _ _ Hc Hk).
+    - inversion H. reflexivity.
+    - destruct F as (F1 & F2 & F3). destruct (w_validate (wo_writer o)) as [k|] eqn:V.
+      + inversion H; subst. simpl. apply neq10. congruence.
+      + rewrite F3 in H.
+        unfold c_get_fn in H. destruct (lookup (apply_id idfun id) (c_items (w_c w))).
+        * destruct (wo_expect_absent o); inversion H; reflexivity.
+        * destruct (wo_create o); inversion H; reflexivity.
+    - destruct F as (F1 & F2 & F3). destruct (change_fn m_eqb m_empty w_merge o msg old) as [nv|k] eqn:C.
+      + destruct (c_get_fn m_empty false o (apply_id idfun id) created (c_items (w_c w))) as [[b|code] cr]; [|inversion H; reflexivity].
+        destruct (om_eqb m_eqb old (Some b)); [|inversion H; reflexivity].
+        destruct (update_time clock_at o (c_reads (w_c w))); discriminate.
+      + inversion H; subst. simpl. apply neq10. destruct (change_fn_err _ _ _ _ C) as [->|(chk & Hc & Hk)]; [lia|].
+        intros ->. exact (F2 _ _ Hc Hk).
+    - inversion H. reflexivity.
+    - destruct (Nat.leb 5 attempt); [inversion H; reflexivity|].
+      destruct (del_check m_eqb o seen) as [r0|] eqn:D.
+      + inversion H; subst. unfold del_check in D. destruct seen as [[it st]|].
+        * destruct (wo_check o) as [chk|] eqn:Hc.
+          -- destruct (chk (Some (it_body it))) as [k|] eqn:Hk.
+             ++ inversion D; subst. simpl. apply negb_true_iff, Z.eqb_neq. intros ->. exact (F _ _ eq_refl Hk).
+             ++ destruct (match wo_expected o with Some e => m_eqb (it_body it) e | None => true end); inversion D; reflexivity.
+          -- destruct (match wo_expected o with Some e => m_eqb (it_body it) e | None => true end); inversion D; reflexivity.
+        * inversion D. destruct (wo_allow_missing o); reflexivity.
+      + destruct (same_ptr seen (lookup_st (apply_id idfun id) w)); [|discriminate].
+        destruct seen as [[it st]|]; [|discriminate].
+        destruct (update_time clock_at o (c_reads (w_c w))). inversion H. reflexivity.
+    - inversion H. reflexivity.
+    - inversion H. reflexivity.
+    - inversion H. reflexivity.
+  Qed.
+
+  Lemma run_pcs_length sched : forall (s : state), List.length (st_pcs (run sched s)) = List.length (st_pcs s).
+  Proof.
+    induction sched as [|u r IH]; intros s; [reflexivity|].
+    change (run (u :: r) s) with (run r (step u s)). rewrite IH.
+    destruct (step_pcs_cases u s) as [E|(c & p & p' & w' & eff & _ & _ & _ & E)]; rewrite E; [reflexivity|apply length_set_nth].
+  Qed.
+
+  Definition guarded (s : state) : Prop :=
+    forall t c r, nth_error prog t = Some c -> nth_error (st_pcs s) t = Some (PDone r) -> lost_guard r = true.
+
+  Hypothesis prog_err_free : forall t c, nth_error prog t = Some c -> err_free c.
+
+  Lemma guarded_step t s : guarded s -> guarded (step t s).
+  Proof.
+    intros H. destruct (step_pcs_cases t s) as [E|(c & p & p' & w' & eff & P & Q & T & E)];
+      intros t' c' r' P' Q'; rewrite E in Q'.
+    - eapply H; eauto.
+    - destruct (Nat.eq_dec t t') as [<-|Hne].
+      + rewrite nth_error_set_nth_same in Q' by (apply nth_error_Some; rewrite Q; discriminate).
+        inversion Q'; subst. eapply trans_done_guard; [eapply prog_err_free; exact P|exact T].
+      + rewrite nth_error_set_nth_other in Q' by exact Hne. eapply H; eauto.
+  Qed.
+
+  Lemma guarded_run sched : forall s, guarded s -> guarded (run sched s).
+  Proof.
+    induction sched as [|u r IH]; intros s H; [exact H|].
+    change (run (u :: r) s) with (run r (step u s)). apply IH. apply guarded_step. exact H.
+  Qed.
+
+  Lemma guarded_init v c : guarded (init prog v c).
+  Proof. intros t c' r P Q. rewrite init_pcs, P in Q. discriminate. Qed.
 End Shape.
 Arguments shape {M writer rmask} c r.
+Arguments lost_guard {M} r.
 
 (* ---------- small list facts ---------- *)
 Lemma list_match_nth {A B} (f : A -> B -> bool) : forall a b t x,
@@ -241,12 +350,6 @@ Definition in_wit_b (r : loutcome) : bool := match r with OVal _ | ODel _ _ => t
 
 (* no CHECK / validation of the run answered Aborted for a Set / Update or Unavailable for a Delete itself (the
    checker reads these codes as "lost a race, no effect") *)
-Definition lost_guard (r : loutcome) : bool :=
-  match r with
-  | OVal (inr k) => negb (k =? 10)
-  | ODel _ (Some k) => negb (k =? 14)
-  | _ => true
-  end.
 Definition no_check_lost (pcs : list (pc fmsg)) : bool :=
   forallb (fun p => match p with PDone r => lost_guard r | _ => true end) pcs.
 
@@ -614,3 +717,103 @@ Proof.
   intros G. unfold judge02, verdict. destruct (agrees c) eqn:A; [|destruct (C02_ok c); discriminate].
   rewrite (agrees_implies_C02_ok c G A). discriminate.
 Qed.
+
+(* ---------- a purely syntactic guard ----------
+   The one model-dependent conjunct of forced_guard (no check of the run answered 10 / 14 itself) follows from a
+   condition on the PROGRAM TEXT: the code of every WithExpectedCheck callback is not 10 (Set / Update / Add) resp.
+   not 14 (Delete), and no call generates its id.  (Validation answers 3 or 13 only.) *)
+Definition chk_code (c : chk) : Z := match c with CEq _ _ k | CFail k | CPresent k => k end.
+Definition check_code_not (o : fwo) (k : Z) : bool :=
+  match o_check o with Some c => negb (chk_code c =? k) | None => true end.
+Definition call_static_ok (i : option idf) (c : fcall) : bool :=
+  match c with
+  | FSet _ o => check_code_not o 10
+  | FUpdate _ _ o | FAdd _ _ o => check_code_not o 10 && negb (f_is_gen i c)
+  | FDelete _ o => check_code_not o 14
+  | _ => true
+  end.
+
+Lemma fw_validate_codes w k : fw_validate w = Some k -> k = 3 \/ k = 13.
+Proof.
+  unfold fw_validate. destruct (fw_update w) as [u|].
+  - destruct (Flat.mem Fbad u); [intros H; inversion H; auto|].
+    destruct (fw_writable w) as [wr|].
+    + destruct (forallb (fun x => Flat.mem x wr) u); [|intros H; inversion H; auto].
+      destruct (fw_reset w) as [r|]; [|discriminate]. destruct (Flat.mem Fbad r); intros H; inversion H; auto.
+    + destruct (fw_reset w) as [r|]; [|discriminate]. destruct (Flat.mem Fbad r); intros H; inversion H; auto.
+  - destruct (fw_reset w) as [r|]; [|discriminate]. destruct (Flat.mem Fbad r); intros H; inversion H; auto.
+Qed.
+
+Lemma interp_chk_code c old k : interp_chk c old = Some k -> k = chk_code c.
+Proof.
+  destruct c; simpl.
+  - destruct (old_field f old =? k0); intros H; inversion H; reflexivity.
+  - intros H; inversion H; reflexivity.
+  - destruct old; intros H; inversion H; reflexivity.
+Qed.
+
+Lemma check_not_ok rw (o : fwo) k : check_code_not o k = true ->
+  forall chk old, wo_check (to_wopts rw o) = Some chk -> chk old <> Some k.
+Proof.
+  unfold check_code_not. simpl. destruct (o_check o) as [c|]; simpl; [|discriminate].
+  intros H chk old E. inversion E; subst. intros X. apply interp_chk_code in X. subst.
+  apply negb_true_iff in H. rewrite Z.eqb_refl in H. discriminate.
+Qed.
+
+Lemma validate_not_10 rw (o : fwo) : fw_validate (wo_writer (to_wopts rw o)) <> Some 10.
+Proof. intros H. destruct (fw_validate_codes _ _ H); discriminate. Qed.
+
+Lemma static_err_free rw i c : call_static_ok i c = true ->
+  @err_free _ _ fw_validate _ (idfun_of i) (to_call_w rw c).
+Proof.
+  destruct c; simpl; intros H; try exact Logic.I.
+  - split; [apply validate_not_10|apply (check_not_ok rw); exact H].
+  - apply andb_true_iff in H. destruct H as [H1 H2]. apply negb_true_iff in H2.
+    split; [apply validate_not_10|]. split; [apply (check_not_ok rw); exact H1|exact H2].
+  - apply andb_true_iff in H. destruct H as [H1 H2]. apply negb_true_iff in H2.
+    split; [apply validate_not_10|]. split; [apply (check_not_ok rw); exact H1|exact H2].
+  - apply (check_not_ok rw). exact H.
+  - destruct pid; exact Logic.I.
+Qed.
+
+Lemma static_no_check_lost rw i prog sched vinit cinit :
+  forallb (call_static_ok i) prog = true ->
+  no_check_lost (st_pcs (f_run_w rw model_v0 i prog sched vinit cinit)) = true.
+Proof.
+  intros H. unfold no_check_lost. apply forallb_forall. intros p Hp.
+  destruct p; try reflexivity. apply In_nth_error in Hp. destruct Hp as (t & Ht).
+  assert (L : (t < List.length (st_pcs (f_run_w rw model_v0 i prog sched vinit cinit)))%nat)
+    by (apply nth_error_Some; rewrite Ht; discriminate).
+  destruct (nth_error (map (to_call_w rw) prog) t) as [c|] eqn:P.
+  - eapply (@guarded_run _ fmsg_eqb fzero _ fw_validate fw_merge (list fld) fclock str_ltb (idfun_of i) (map (to_call_w rw) prog));
+      [|apply guarded_init|exact P|exact Ht].
+    intros t' c' P'. rewrite nth_error_map in P'. destruct (nth_error prog t') as [fc|] eqn:Q; [|discriminate].
+    inversion P'; subst. apply static_err_free. rewrite forallb_forall in H. apply H. eapply nth_error_In; eauto.
+  - (* no such thread: the pcs have the length of the program *)
+    exfalso. unfold f_run_w, f_run_gen_w in L. rewrite run_pcs_length in L. simpl in L. rewrite !map_length in L.
+    apply nth_error_None in P. rewrite map_length in P. lia.
+Qed.
+
+Definition forced_guard_static_at (i : option idf) (cinit : list (string * fmsg * Z))
+           (prog : list fcall) (sched : list nat) (results : list fout) : bool :=
+  negb (has_lossy prog) &&
+  sorted_keys_b (keys (c_items (init_c cinit))) &&
+  forallb allowed_code (filter (fun h => is_write_call (h_call h)) (hist_of 0 prog results sched)) &&
+  forallb (call_static_ok i) prog.
+
+(* nothing in it runs the model *)
+Definition forced_guard_static (c : ccase) : bool :=
+  match c with
+  | CaseSched i _ cinit prog sched results _ _ _ _ _ => forced_guard_static_at i cinit prog sched results
+  | CaseCfg _ i _ cinit prog sched results _ _ _ _ _ => forced_guard_static_at i cinit prog sched results
+  | _ => false
+  end.
+
+Lemma forced_guard_static_ok c : forced_guard_static c = true -> forced_guard c = true.
+Proof.
+  destruct c; simpl; try discriminate; unfold forced_guard_static_at, forced_guard_at; intros H;
+    apply andb_true_iff in H; destruct H as [H H4]; rewrite H; simpl; apply static_no_check_lost; exact H4.
+Qed.
+
+Theorem agrees_implies_C02_ok_static c : forced_guard_static c = true -> agrees c = true -> C02_ok c = true.
+Proof. intros G. apply agrees_implies_C02_ok. apply forced_guard_static_ok. exact G. Qed.
